@@ -108,6 +108,7 @@ def check_class(cq):
         return [Obligation(PROP, f"{name}|slots/replace", "slots/replace", fi.short, UNSUPPORTED, reason=run.error)]
     ex = run.ex
     replaced, assigned, bad_callee = set(), set(), {}
+    replaced_full = set()
     has = {c.short for c in r.classes.values() if c.resolve("replace_table") and c.resolve("replace_table")[0] == "func"}
     for o in run.outcomes:
         if o.status == "raise":
@@ -119,6 +120,7 @@ def check_class(cq):
             rk = recv_key(ex, ef, o.state)
             if rk.startswith("self."):
                 replaced.add(rk.replace("[*]", "").split(".")[1])
+                replaced_full.add(rk)
             if ef.recv_tags is not None:
                 pkg = [t for t in ef.recv_tags if t != "NoneType" and ("pypika_tortoise." + t) in r.classes]
                 missing = sorted(t for t in pkg if t not in has)
@@ -192,6 +194,16 @@ def check_class(cq):
                                                    f"replace_table on it nor assigns the new table to it: the old "
                                                    f"table survives there",
                               witness={"family": "call", "oracle": "replace_slot", "args": [name, slot]}))
+    # components of tuple-valued list slots (SET target / value, ORDER BY term ...) are slots of their own
+    import re as _re
+    for full in sorted(x for x in rs if _re.search(r"\]\.\d+$", x)):
+        ok = full in replaced_full
+        obs.append(Obligation(PROP, f"{name}|slots/replace|{full.replace('self.', '', 1)}", "slots/replace", fi.short,
+                              PROVED if ok else REFUTED,
+                              detail=f"{ci.name}.replace_table rebuilds the rendered component {full}",
+                              reason="" if ok else f"{full} is rendered by get_sql but replace_table is never called on it",
+                              witness={"family": "call", "oracle": "replace_slot",
+                                       "args": [name, full.replace("self.", "", 1).split("[")[0]]}))
     for rk, missing in sorted(bad_callee.items()):
         obs.append(Obligation(PROP, f"{name}|slots/callee|{rk}", "slots/callee", fi.short, REFUTED,
                               detail=f"replace_table is called on {rk}, which may be a {missing}: that class has no "
